@@ -60,6 +60,24 @@ def bank(rng, n=12):
     return pts
 
 
+def structured_scalars():
+    """scalars built from limb patterns random testing never produces: all-zero / all-ones / single-bit 64-bit limbs,
+    nibble patterns that stress the radix-16 recentering (runs of 7, 8, f), values around 2^252 and l"""
+    L_ = L
+    out = set()
+    limbs = [0, 2**64 - 1, 2**63, 1, 2**63 - 1, 0x8888888888888888, 0x7777777777777777, 0xffffffff00000000, 0x00000000ffffffff]
+    for a in limbs:
+        for b in limbs[:5]:
+            for c in limbs[:4]:
+                for d_ in (0, 1, 0x0fffffffffffffff, 0x0800000000000000):
+                    out.add((a | (b << 64) | (c << 128) | (d_ << 192)) % L_)
+    for e in (0, 1, 4, 60, 63, 64, 65, 124, 127, 128, 129, 191, 192, 250, 251, 252):
+        out.add((2**e) % L_)
+        out.add((2**e - 1) % L_)
+        out.add((L_ - 2**e) % L_)
+    return sorted(out)
+
+
 def scalar_words(k):
     v = k % L * (2**256) % L
     return "w:" + ",".join(str((v >> (64 * i)) & (2**64 - 1)) for i in range(4))
@@ -146,9 +164,11 @@ def battery_scalarmult(seed, which=("P.ScalarMult", "P.ScalarBaseMult", "P.VarTi
     rng = random.Random(seed)
     pts = bank(rng, 6)
     ks = [0, 1, 2, 7, 8, 9, 15, 16, 17, L - 1, L - 2, (L - 1) // 2, 2**252, 2**252 - 1, 2**128, 8 * 16**20, 2**251 + 2**250] + [rng.randrange(L) for _ in range(6)]
+    ss = structured_scalars()
+    ks += [ss[(i * 37 + seed) % len(ss)] for i in range(24)] + [2**64 - 1, 2**128 + 2**64 - 1, (2**192 - 1) - (2**128 - 2**64)]
     ops, meta = [], []
     for op in which:
-        for t in range(14):
+        for t in range(30):
             recv = rng.choice(["zero", "identity", "other", "alias"])
             if op == "P.ScalarMult":
                 k = ks[(t * 5) % len(ks)] if t < 10 else rng.randrange(L)
